@@ -37,8 +37,8 @@ private theorem G_congr (nroot : Nat) (st st' : PState) (h : G T nroot st)
     (h1 : st'.foreign = st.foreign) (h2 : st'.extracted = st.extracted) (h3 : st'.macros = st.macros)
     (h4 : st'.envs = st.envs) (h5 : st'.glossary = st.glossary) (h6 : st'.nest = st.nest)
     (h7 : st'.latex = st.latex) (h8 : st'.itemStack ≠ []) (h9 : st'.langStack = st.langStack)
-    (h10 : st'.rots = st.rots) : G T nroot st' := by
-  refine ⟨⟨?_, ?_, ?_, ?_, h8, ?_, ?_⟩, ?_, ?_⟩
+    (h10 : st'.rots = st.rots) (h11 : st'.unknowns.Nodup) : G T nroot st' := by
+  refine ⟨⟨?_, ?_, ?_, ?_, h8, ?_, ?_, h11⟩, ?_, ?_⟩
   · rw [h1, h2]; exact h.flows
   · rw [h3, h4]; exact h.macros
   · rw [h4]; exact h.envs
@@ -54,8 +54,8 @@ private theorem Good_congr (nroot : Nat) (st st' : PState) (h : G T nroot st)
     (h1 : st'.foreign = st.foreign) (h2 : st'.extracted = st.extracted) (h3 : st'.macros = st.macros)
     (h4 : st'.envs = st.envs) (h5 : st'.glossary = st.glossary) (h6 : st'.nest = st.nest)
     (h7 : st'.latex = st.latex) (h8 : st'.itemStack ≠ []) (h9 : st'.langStack = st.langStack)
-    (h10 : st'.rots = st.rots) : Good T nroot st st' :=
-  ⟨G_congr T nroot st st' h h1 h2 h3 h4 h5 h6 h7 h8 h9 h10, h7, h6⟩
+    (h10 : st'.rots = st.rots) (h11 : st'.unknowns.Nodup) : Good T nroot st st' :=
+  ⟨G_congr T nroot st st' h h1 h2 h3 h4 h5 h6 h7 h8 h9 h10 h11, h7, h6⟩
 
 private theorem addUnknown_spec (nroot : Nat) (name : Str) (math : Bool) (st : PState) (h : G T nroot st) :
     Post (addUnknown name math st) (fun _ s => Good T nroot st s) := by
@@ -63,7 +63,15 @@ private theorem addUnknown_spec (nroot : Nat) (name : Str) (math : Bool) (st : P
   apply Post_modify
   split
   · exact Good_refl T nroot st h
-  · exact Good_congr T nroot st _ h rfl rfl rfl rfl rfl rfl rfl h.items rfl rfl
+  · rename_i hc
+    refine Good_congr T nroot st _ h rfl rfl rfl rfl rfl rfl rfl h.items rfl rfl ?_
+    show (st.unknowns ++ [name]).Nodup
+    have hn : name ∉ st.unknowns := by
+      intro hmem
+      apply hc
+      simp [hmem]
+    exact List.nodup_append.2 ⟨h.unk, (by simp), by
+      intro a ha b hb; simp only [List.mem_singleton] at hb; subst hb; intro e; exact hn (e ▸ ha)⟩
 
 private theorem lookupEnv_mem (st : PState) (name : Str) (env : MacroDef) (h : lookupEnv st name = some env) :
     env ∈ st.envs ∧ env.name = name := by
@@ -207,7 +215,7 @@ theorem begin_step (hw : T.WFInv) (nroot fuel : Nat) (IH : AllSpecs T nroot fuel
           apply Post_bind _ _ _ (Q := fun _ s' => Good T nroot st s')
           · apply Post_modify
             exact Good_trans T nroot _ _ _ h.1 (Good_congr T nroot _ _ h.1.1 rfl rfl rfl rfl rfl rfl rfl
-              (by simp) rfl rfl)
+              (by simp) rfl rfl h.1.1.unk)
           · intro _ s' hs'
             exact beginTail_spec T nroot fuel IH st s' r env tok hs' h.2 ht hmac heok hm.2
         | none =>
@@ -273,7 +281,7 @@ theorem end_step (hw : T.WFInv) (nroot fuel : Nat) (IH : AllSpecs T nroot fuel) 
         apply Post_bind _ _ _ (Q := fun _ s' => Good T nroot st s')
         · apply Post_modify
           refine Good_trans T nroot _ _ _ h.1 (Good_congr T nroot _ _ h.1.1 rfl rfl rfl rfl rfl rfl rfl
-            ?_ rfl rfl)
+            ?_ rfl rfl h.1.1.unk)
           have hlen : s.itemStack.length > 1 := by
             simp only [Bool.and_eq_true, decide_eq_true_eq] at hc
             exact hc.2
@@ -317,7 +325,7 @@ private theorem macroToksOk_extract (m : MacroDef) (h : macroToksOk T m = true) 
 
 private theorem G_extract (nroot : Nat) (s : PState) (e : List Tok) (h : G T nroot s) (he : OL T s.latex.length e) :
     G T nroot { s with extracted := s.extracted ++ [e], foreign := s.foreign || s.nest != 1 } := by
-  refine ⟨⟨?_, h.macros, h.envs, h.gloss, h.items, h.langs, h.rots⟩, h.root, h.inFrame⟩
+  refine ⟨⟨?_, h.macros, h.envs, h.gloss, h.items, h.langs, h.rots, h.unk⟩, h.root, h.inFrame⟩
   intro hf x hx
   have hf' : s.foreign = false ∧ s.nest = 1 := by simpa using hf
   rcases List.mem_append.1 hx with hx | hx
@@ -474,7 +482,7 @@ theorem item_step (hw : T.WFInv) (nroot fuel : Nat) (IH : AllSpecs T nroot fuel)
           apply Post_bind _ _ _ (Q := fun _ s' => Good T nroot st s')
           · apply Post_modify
             exact Good_trans T nroot _ _ _ h.1 (Good_congr T nroot _ _ h.1.1 rfl rfl rfl rfl rfl rfl rfl
-              (by simp) rfl rfl)
+              (by simp) rfl rfl h.1.1.unk)
           · intro _ s' hs'
             apply Post_pure
             refine ⟨hs', ?_, h.2.2⟩
